@@ -149,39 +149,84 @@ func ruleLabelFormatDirection(r *Run) {
 		}
 	})
 	var exec, rename, asMap, set ssa.CallInstruction
-	for _, c := range callsIn(lf) {
-		switch {
-		case callIs(c, "text/template", "(*Template).Execute"):
-			exec = c
-		case callIs(c, eng, "(*RenameLabel).Process"):
-			rename = c
-		case callIs(c, eng, "(*LabelSet).AsMap"):
-			asMap = c
-		case callIs(c, eng, "(*LabelSet).Set"):
-			set = c
+	lgrp := funcGroup(lf)
+	inRename := map[*ssa.Function]bool{}
+	for _, g := range lgrp {
+		for _, c := range callsIn(g) {
+			if callIs(c, eng, "(*RenameLabel).Process") {
+				for _, x := range funcGroup(staticCallee(c)) {
+					inRename[x] = true
+				}
+			}
+		}
+	}
+	for _, g := range lgrp {
+		if inRename[g] {
+			continue
+		}
+		for _, c := range callsIn(g) {
+			switch {
+			case callIs(c, "text/template", "(*Template).Execute"):
+				exec = c
+			case callIs(c, eng, "(*RenameLabel).Process"):
+				rename = c
+			case callIs(c, eng, "(*LabelSet).AsMap"):
+				asMap = c
+			case callIs(c, eng, "(*LabelSet).Set"):
+				set = c
+			}
 		}
 	}
 	if exec == nil || rename == nil || asMap == nil || set == nil {
 		o2.Fail(r.pos(lf.Pos()), "Execute=%v rename=%v AsMap=%v Set=%v", exec != nil, rename != nil, asMap != nil, set != nil)
 		return
 	}
-	if f, _, ok := loadOfField(set.Common().Args[1]); !ok || f != tmplLhs || tmplLhs == "" {
+	if f, _, ok := loadOfField(originValueIn(set.Common().Args[1], lgrp)); !ok || f != tmplLhs || tmplLhs == "" {
 		bad = true
 		o2.Fail(r.pos(set.Pos()), "the parser stores the left identifier in LabelTemplate.%s but the engine sets label %s", tmplLhs, describe(set.Common().Args[1], 0))
 	}
-	if !instrDominates(rename, asMap) {
+	if !runsBefore(rename, asMap, lf, lgrp) {
 		bad = true
 		o2.Fail(r.pos(asMap.Pos()), "the template data (set.AsMap()) is taken before the renames of the same stage are applied")
 	}
-	if stripTypeOnly(exec.Common().Args[2]) != ssa.Value(asMap.(*ssa.Call)) {
+	if originValueIn(stripTypeOnly(exec.Common().Args[2]), lgrp) != ssa.Value(asMap.(*ssa.Call)) {
 		bad = true
 		o2.Fail(r.pos(exec.Pos()), "the template is executed over %s, not over set.AsMap()", describe(exec.Common().Args[2], 0))
 	}
-	// value set is buf.String() after Execute into the same buffer
-	if sc, ok := set.Common().Args[2].(*ssa.Call); ok && len(sc.Call.Args) == 1 {
-		if bc, ok := sc.Call.Args[0].(*ssa.Call); !ok || !callIs(bc, "bytes", "(*Buffer).String") || !instrDominates(exec, bc) {
+	// value set is buf.String() after Execute into the same buffer (helpers on the way to Execute walked inline)
+	{
+		hosts := callersWithin(lgrp, exec.Parent())
+		w := &feWalker{Fn: lf, Inline: func(callee *ssa.Function, depth int) bool { return hosts[callee] && depth <= 2 }}
+		nSet := 0
+		reported := map[ssa.Instruction]bool{}
+		for _, e := range w.Run() {
+			for _, sc := range e.State.calls {
+				if !callIs(sc.Call, eng, "(*LabelSet).Set") || len(sc.Args) < 3 || inRename[sc.Call.Parent()] {
+					continue
+				}
+				nSet++
+				conv, ok := sc.Args[2].V.(*ssa.Call)
+				if !ok || len(conv.Call.Args) != 1 {
+					continue
+				}
+				// the evaluated argument of the conversion call, as recorded on this path
+				var src ssa.Value
+				for _, cc := range e.State.calls {
+					if cc.Call == ssa.CallInstruction(conv) && cc.Seq < sc.Seq && len(cc.Args) == 1 {
+						src = cc.Args[0].V
+					}
+				}
+				bc, ok := src.(*ssa.Call)
+				if (!ok || !callIs(bc, "bytes", "(*Buffer).String") || !runsBefore(exec, bc, lf, lgrp)) && !reported[sc.Call] {
+					reported[sc.Call] = true
+					bad = true
+					o2.Fail(r.pos(sc.Call.Pos()), "the label is set to %s, not to the expansion taken from the buffer after Execute", describe(src, 0))
+				}
+			}
+		}
+		if nSet == 0 {
 			bad = true
-			o2.Fail(r.pos(set.Pos()), "the label is set to %s, not to the expansion taken from the buffer after Execute", describe(sc.Call.Args[0], 0))
+			o2.Fail(r.pos(lf.Pos()), "no path reaches set.Set")
 		}
 	}
 	if !bad {
@@ -298,56 +343,94 @@ func ruleTemplateBinding(r *Run) {
 				o3.Fail(r.pos(ret.Pos()), "currentTimestamp returns %s", describe(ret.Results[0], 0))
 			}
 		}
-		// Process: stores before Execute
+		// Process: stores before Execute (possibly through helpers of the stage or of an embedded state)
+		grp := funcGroup(proc)
 		var exec ssa.CallInstruction
-		for _, c := range callsIn(proc) {
-			if callIs(c, "text/template", "(*Template).Execute") {
-				exec = c
+		for _, g := range grp {
+			for _, c := range callsIn(g) {
+				if callIs(c, "text/template", "(*Template).Execute") {
+					exec = c
+				}
 			}
+		}
+		// ownRoot: the object an address belongs to, through embedded structs and helper receivers
+		ownRoot := func(v ssa.Value) ssa.Value {
+			for d := 0; d < 8; d++ {
+				v = originValueIn(v, grp)
+				fa, ok := v.(*ssa.FieldAddr)
+				if !ok {
+					break
+				}
+				v = fa.X
+			}
+			return v
 		}
 		if exec == nil {
 			bad = true
 			o3.Fail(r.pos(proc.Pos()), "Execute is not called")
 		} else {
 			okTs, okLine := false, false
-			allInstrs(proc, func(in ssa.Instruction) {
-				st, ok := in.(*ssa.Store)
-				if !ok {
-					return
-				}
-				n, base, ok := fieldNameOf(st.Addr)
-				if !ok || base != ssa.Value(proc.Params[0]) {
-					return
-				}
-				if n == "ts" && st.Val == ssa.Value(proc.Params[1]) && instrDominates(st, exec) {
-					okTs = true
-				}
-				if n == "line" && instrDominates(st, exec) {
-					// the line parameter, or the line returned by the rename step (which returns its input)
-					okLine = true
-					if st.Val != ssa.Value(proc.Params[2]) {
-						if c, idx, ok := extractOf(st.Val); !ok || idx != 0 {
-							okLine = false
-						} else {
-							_ = c
+			for _, g := range grp {
+				allInstrs(g, func(in ssa.Instruction) {
+					st, ok := in.(*ssa.Store)
+					if !ok {
+						return
+					}
+					n, base, ok := fieldNameOf(st.Addr)
+					if !ok || ownRoot(base) != ssa.Value(proc.Params[0]) {
+						return
+					}
+					val := originValueIn(st.Val, grp)
+					if n == "ts" && val == ssa.Value(proc.Params[1]) && runsBefore(st, exec, proc, grp) {
+						okTs = true
+					}
+					if n == "line" && runsBefore(st, exec, proc, grp) {
+						// the line parameter, or the line returned by the rename step (which returns its input)
+						okLine = true
+						if val != ssa.Value(proc.Params[2]) {
+							if _, idx, ok := extractOf(val); !ok || idx != 0 {
+								okLine = false
+							}
 						}
 					}
-				}
-			})
+				})
+			}
 			if !okTs || !okLine {
 				bad = true
 				o3.Fail(r.pos(exec.Pos()), "before Execute: lf.ts = ts stored=%v, lf.line = line stored=%v", okTs, okLine)
 			}
 			// buffer reset before Execute, in the same loop iteration
 			var reset ssa.CallInstruction
-			for _, c := range callsIn(proc) {
-				if callIs(c, "bytes", "(*Buffer).Reset") {
-					reset = c
+			for _, g := range grp {
+				for _, c := range callsIn(g) {
+					if callIs(c, "bytes", "(*Buffer).Reset") {
+						reset = c
+					}
 				}
 			}
-			if reset == nil || !instrDominates(reset, exec) {
+			if reset == nil || !runsBefore(reset, exec, proc, grp) {
 				bad = true
 				o3.Fail(r.pos(exec.Pos()), "the template buffer is not reset before Execute")
+			} else if lr := liftInstr(reset, proc, grp, true); lr != nil {
+				// same iteration: no loop header between the reset and the execution
+				le := liftInstr(exec, proc, grp, false)
+				if le != nil && lr.Block() != le.Block() {
+					for _, hb := range proc.Blocks {
+						isHeader := false
+						for _, pr := range hb.Preds {
+							if hb.Dominates(pr) {
+								isHeader = true
+							}
+						}
+						if !isHeader {
+							continue
+						}
+						if body := naturalLoop(hb); body[le.Block()] && !body[lr.Block()] {
+							bad = true
+							o3.Fail(r.pos(exec.Pos()), "the template buffer is reset outside the loop that executes the templates")
+						}
+					}
+				}
 			}
 		}
 		// builder passes (x.currentTimestamp, x.currentLine)
@@ -372,9 +455,12 @@ func ruleTemplateBinding(r *Run) {
 		return
 	}
 	var exec ssa.CallInstruction
-	for _, c := range callsIn(lfp) {
-		if callIs(c, "text/template", "(*Template).Execute") {
-			exec = c
+	lgrp := funcGroup(lfp)
+	for _, g := range lgrp {
+		for _, c := range callsIn(g) {
+			if callIs(c, "text/template", "(*Template).Execute") {
+				exec = c
+			}
 		}
 	}
 	bad := false
@@ -383,7 +469,9 @@ func ruleTemplateBinding(r *Run) {
 		bad = true
 		o4.Fail(r.pos(lfp.Pos()), "Execute is not called")
 	} else {
-		w := &feWalker{Fn: lfp}
+		// helpers on the way to the Execute call are walked inline
+		hosts := callersWithin(lgrp, exec.Parent())
+		w := &feWalker{Fn: lfp, Inline: func(callee *ssa.Function, depth int) bool { return hosts[callee] && depth <= 2 }}
 		for _, e := range w.Run() {
 			failed := false
 			for _, f := range e.State.free {
@@ -407,6 +495,27 @@ func ruleTemplateBinding(r *Run) {
 	} else if !bad {
 		o4.Fail(r.pos(lfp.Pos()), "no success path found")
 	}
+}
+
+// callersWithin: target and the functions of grp from which target is reached by static calls.
+func callersWithin(grp []*ssa.Function, target *ssa.Function) map[*ssa.Function]bool {
+	hosts := map[*ssa.Function]bool{target: true}
+	for changed := true; changed; {
+		changed = false
+		for _, g := range grp {
+			if hosts[g] {
+				continue
+			}
+			for _, c := range callsIn(g) {
+				if callee := staticCallee(c); callee != nil && hosts[callee] {
+					hosts[g] = true
+					changed = true
+					break
+				}
+			}
+		}
+	}
+	return hosts
 }
 
 // ruleDropKeep: drop removes exactly the selected labels, keep all others.
